@@ -183,6 +183,12 @@ func parseContracts(file string, pkgDir string) ([]*FuncSpec, error) {
 			for _, a := range splitTop(rest) {
 				cur.Assigns = append(cur.Assigns, a)
 			}
+		case "ghostlog":
+			m := clauseRe.FindStringSubmatch(rest)
+			if m == nil {
+				return nil, fmt.Errorf("%s:%d: bad ghostlog clause", file, ln)
+			}
+			cur.GhostLogs = append(cur.GhostLogs, [2]string{m[1], m[4]})
 		case "let":
 			cur.Lets = append(cur.Lets, rest)
 			lastExpr = &cur.Lets[len(cur.Lets)-1]
@@ -531,6 +537,9 @@ func genGhost(fset *token.FileSet, dir string, specs []*FuncSpec) ([]string, err
 				q = append(q, strconv.Quote(g))
 			}
 			fmt.Fprintf(&body, "\tvc.AssignsGlobal(%s)\n", strings.Join(q, ", "))
+		}
+		for _, gl := range sp.GhostLogs {
+			fmt.Fprintf(&body, "\tvc.GhostLog(%q, %s)\n", gl[0], gl[1])
 		}
 		body.WriteString("\tvc.CallSite()\n")
 		call := fmt.Sprintf("%s%s(%s)", recvCall, fd.Name.Name, strings.Join(argNames, ", "))
